@@ -82,11 +82,11 @@ def explore_insert(ctx, nbits, diff_cell):
     return outs, used, T
 
 
-def r1(ctx):
+def window_cells(ctx, RULE, include_beyond=True):
     fi = ctx.fn(INS)
     T = ctx.folder.class_attr(ctx.repo.cls("connection:SeqNum"), "_threshold")
     widths = window_widths(ctx)
-    ctx.expect("C04.R1", "BitField constructor sites (window widths)", len(widths), 2)
+    ctx.expect(RULE, "BitField constructor sites (window widths)", len(widths), 2)
     widths = sorted(set(widths) | ({8, 64, 128} if ctx.tier == "thorough" else set()))
     for nb in widths:
         cells = [("newer beyond window", (-T, -nb - 1)), ("newer inside window", (-nb, -1)), ("current", (0, 0)),
@@ -95,17 +95,17 @@ def r1(ctx):
             outs, used, _ = explore_insert(ctx, nb, cell)
             ctx.analysed["cells"] += 1
             if not used:
-                ctx.undecided("C04.R1", fi, "BitField.insert does not compute a diff")
+                ctx.undecided(RULE, fi, "BitField.insert does not compute a diff")
             # only paths on which the field is already initialised (first test false) matter
             outs2 = [o for o in outs if not any(lab and "current_seqnum == 0" in lab and pol and "not" not in lab for (lab, pol) in o.path)]
             site = "nbits=%d cell=%s diff in [%d, %d]" % (nb, name, cell[0], cell[1])
             if name.startswith("newer"):
                 bad = [o for o in outs2 if o.kind == "raise" or not any(e.startswith("self.current_seqnum =") for e in o.events)]
-                ctx.check(not bad and outs2, "C04.R1", fi, site, "a newer sequence number is accepted and becomes the current one",
+                ctx.check(not bad and outs2, RULE, fi, site, "a newer sequence number is accepted and becomes the current one",
                           witness=[repr(o) for o in bad][:2])
             elif name == "current":
                 bad = [o for o in outs2 if o.kind != "raise" or "DuplicationError" not in str(o.value)]
-                ctx.check(not bad and outs2, "C04.R1", fi, site, "re-inserting the current sequence number raises DuplicationError",
+                ctx.check(not bad and outs2, RULE, fi, site, "re-inserting the current sequence number raises DuplicationError",
                           witness=[repr(o) for o in bad][:2])
             elif name == "older inside window":
                 acc = [o for o in outs2 if o.kind != "raise"]
@@ -121,13 +121,17 @@ def r1(ctx):
                 for o in rej:
                     if not any(lab and "self.bits" in lab and pol for (lab, pol) in o.path):
                         ok = False
-                ctx.check(ok, "C04.R1", fi, site, "inside the window: raise iff the bit is already set, else set it",
+                ctx.check(ok, RULE, fi, site, "inside the window: raise iff the bit is already set, else set it",
                           witness=[repr(o) for o in outs2][:3])
-            else:
+            elif include_beyond:
                 acc = [o for o in outs2 if o.kind != "raise"]
-                ctx.check(not acc and outs2, "C04.R1", fi, "nbits=%d cell=%s" % (nb, name),
+                ctx.check(not acc and outs2, RULE, fi, "nbits=%d cell=%s" % (nb, name),
                           "a sequence number older than the window must be refused (its freshness cannot be established)",
                           witness={"diff": "[%d, %d]" % cell, "accepting_path": [repr(o) for o in acc][:1]}, line=fi.lineno)
+
+
+def r1(ctx):
+    window_cells(ctx, "C04.R1", True)
 
 
 def _dup_guard(ctx, rule, fi, insert_recv, allowed_pre):
